@@ -175,7 +175,7 @@ impl Case {
         };
         let recs = clist(self.recs.iter().map(|r| {
             format!(
-                "mkRec {} {} {} {} {} {} {} {} {} {} {} {} {}",
+                "mkRec {} {} {} {} {} {} {} {} {} {} {} {} {} {}",
                 cz(r.ncols as i64),
                 cbool(r.strings == StrKind::Ok),
                 cbool(r.surface.is_empty()),
@@ -194,7 +194,8 @@ impl Case {
                 clist(r.split_b.iter().map(wid)),
                 clist(r.wstruct.iter().map(wid)),
                 cbool(r.syn_ok || !r.has_syn),
-                cbool(r.splits_concat)
+                cbool(r.splits_concat),
+                cbool(r.surface.contains('\0'))
             )
         }));
         format!("(mkInput {} {})", base, recs)
@@ -616,8 +617,13 @@ fn mutate_rec(recs: &mut Vec<Rec>, nl: i64, nr: i64, user: bool, rng: &mut Rng) 
             "synonym_bad"
         }
         12 => {
-            r.surface = String::new();
-            "empty_surface"
+            if rng.chance(1, 2) {
+                r.surface = String::new();
+                "empty_surface"
+            } else {
+                r.surface = if rng.chance(1, 2) { format!("\u{0}{}", r.surface) } else { format!("{}\u{0}あ", r.surface) };
+                "nul_in_surface"
+            }
         }
         _ => {
             r.mode = Some(0);
